@@ -68,8 +68,8 @@ class _R:
             return
         else:
             ty = self.type_ref(ti, f["ty"])
-            if f["w"] > 0:
-                ty += ":%d" % f["w"]
+            if f["w"] != 0:
+                ty += ":%d" % (0 if f["w"] == -1 else f["w"])
             for d in f["dims"]:
                 ty += "[]" if d == -1 else "[n]" if d == -2 else "[%d]" % d
             self.add(ind, "%s [+%s]  %s  %s" % (_dyn(f["start"]), _dyn(f["size"]), ty, f["name"]))
